@@ -26,12 +26,14 @@ package topics
 //@   ensures[ghostdef-retain] gfield(0, "nretain") == old(gfield(0, "nretain"))+1 && gfield(0, "lastretain") == msg
 //@   modifies allfields(rnode), allfields(snode), allfields(MemTopics), allmaps(map[string]*rnode), msg.remlen, msg.dirty, msg.packetID, elems(msg.packetID), message.gPacketID, gfield(0, "encn"), gfield(0, "encarr"), gfield(0, "encoff"), gfield(0, "encAt"), gfield(0, "nretain"), gfield(0, "lastretain")
 
+// Ghost: nlookup counts subscriber lookups (C01: every message handed on is looked up, whatever else happened to it).
 //@ func (*Manager).Subscribers
 //@   results err
 //@   requires m.p != nil
+//@   ensures[ghostdef-lookup] gfield(0, "nlookup") == old(gfield(0, "nlookup"))+1
 //@   ensures err == nil ==> len(*subs) == len(*qoss) && forall(0, len(*subs), func(i int) bool { return (*subs)[i] != nil && typeis((*subs)[i], *service.OnPublishFunc) && ifaceval((*subs)[i], *service.OnPublishFunc) != nil && (*qoss)[i] <= qos && (*qoss)[i] <= 2 })
 //@   ensures[arrays] (fresh(arr(*qoss)) || arr(*qoss) == arr(old(*qoss))) && (fresh(arr(*subs)) || arr(*subs) == arr(old(*subs)))
-//@   modifies *subs, *qoss, capelems(old(*subs)), capelems(old(*qoss))
+//@   modifies gfield(0, "nlookup"), *subs, *qoss, capelems(old(*subs)), capelems(old(*qoss))
 
 //@ func (*Manager).Retain
 //@   results err
